@@ -294,7 +294,12 @@ def run_c02(chk, tier, seed):
         # (b) valid first unit followed by any second (and third in thorough) unit: relative resolution
         s2 = run_projection(chk, "C02", f"{name}-multi", ft, cands, defs, first, nxt, 2, [""], [-1], ["--history"])
         total += s1["executed"] + s2["executed"]
-        if th and name in ("defaults", "anon2", "rootdef", "suffix"):
+        if not th and name in ("flat", "anon2"):
+            # three units with a common command in the middle: the level must survive it (and a leading colon before it)
+            nxt3 = "{Mk(0, p, FALSE) : p \\in PHdrs(1)} \\cup {Mk(0, <<c>>, FALSE) : c \\in Commons}"
+            s4 = run_projection(chk, "C02", f"{name}-triple", ft, cands, defs, first, nxt3, 3, [""], [-1])
+            total += s4["executed"]
+        if th and name in ("defaults", "anon2", "rootdef", "suffix", "flat"):
             # three units: the level must follow the *previous* unit, not an earlier one
             nxt3 = "{Mk(l, p, FALSE) : l \\in {0, 1}, p \\in PHdrs(1)} \\cup {Mk(0, <<c>>, FALSE) : c \\in Commons} \\cup {Mk(0, p, TRUE) : p \\in PHdrs(2)}"
             s4 = run_projection(chk, "C02", f"{name}-triple", ft, cands, defs, first, nxt3, 3, [""], [-1])
@@ -363,7 +368,8 @@ def run_c05(chk, tier, seed):
     s = run_projection(chk, "C05", "faults", ft, cands, defs, "OkUnits \\cup FaultUnits", "OkUnits \\cup FaultUnits", 2, ["", "\n"], [-1])
     s2 = run_projection(chk, "C05", "faults3", ft, cands, defs, "OkUnits", "OkUnits \\cup FaultUnits", k, [""], [-1])
     okq = [U(["Bq"], query=True, h=H(items=("7", "'a;b'"))), U(["A"]), U(["GRP"], query=True, h=H(hdr="GRP:Y", items=("42",))),
-           U(["*OPC"], query=True, h=H(items=("1",)))]
+           U(["*OPC"], query=True, h=H(items=("1",))),
+           U(["SENS", "AC"], query=True, h=H(items=()))]        # a silent query: writes nothing, never calls finish()
     defs2 = [f"Q == {set_of(okq)}"]
     s3 = run_projection(chk, "C05", "capacity", ft, cands, defs2, "Q", "Q", 3, ["", ";"], list(range(0, 34)))
     chk.cov["exhaustive"] = True
@@ -407,7 +413,8 @@ def c10_units(th):
          U(["*OPC"], query=True, h=H(items=('"q""r"', "-2.5"))),
          U(["GRP", "X"], query=True, h=H(hdr="X", items=("ON", "OFF"))),
          U(["Bq"], query=True, h=H(items=("#12x;",))),          # payload ending in the unit separator byte
-         U(["GRP"], query=True, h=H(items=("#11,", "#11\n")))]   # ... in the data separator / terminator byte
+         U(["GRP"], query=True, h=H(items=("#11,", "#11\n"))),   # ... in the data separator / terminator byte
+         U(["SENS"], query=True, h=H(items=('-171,"Invalid expression;ext one"', '0,"No error"')))]   # error/event queue items
     e = [U(["A"]), U(["GRP", "X"], data=[DATA["str"]], h=H(pulls=["req"])), U(["*OPC"])]
     return q, e
 
